@@ -71,6 +71,7 @@ class OsPath:
     dirname = staticmethod(posixpath.dirname)
     basename = staticmethod(posixpath.basename)
     normpath = staticmethod(posixpath.normpath)
+    abspath = staticmethod(posixpath.abspath)
     split = staticmethod(posixpath.split)
     isabs = staticmethod(posixpath.isabs)
 
